@@ -1,61 +1,97 @@
 """C20 — immutable configuration: values change only through authorised, logged mutations.
 
 Monitors (all observe executions of the real operon_ai.state.genome.Genome):
-  1. history + reference model: every operation on any member of a lineage (root genome and all
-     descendants) is bracketed by snapshots (export(), get_hash(), get_gene(n).value, get_value,
-     get_statistics()) of EVERY member; the model holds the authorised value per gene, the
-     expression levels and the approved-mutation log (for the rollback target);
+  1. history + reference model: every operation on any member of a lineage (root genome, all
+     descendants and all copy/deepcopy/pickle duplicates) is bracketed by snapshots (export(),
+     get_hash(), get_gene(n).value, get_value, get_statistics()) of EVERY member; the model holds the
+     authorised value per gene, the expression levels, the approved-mutation log (for the rollback
+     target) and the CURRENT authorisation settings of every member (the workload assigns the public
+     attributes allow_mutations / on_mutation / mutation_rate / silent mid-session);
   2. approval-callback stubs that record every (gene, new value, decision) they are asked about, so a
-     value change is accepted only if mutations are enabled or the stub approved exactly that change
-     during that very call;
+     value change is accepted only if mutations are enabled or the member's CURRENT stub approved
+     exactly that change during that very call; stubs may be falsy callables, may raise, may answer
+     with non-bool values;
   3. aliasing monitor: the workload keeps references to mutable values it handed in (Gene(...),
      mutate, replicate(mutations)) or got back (get_value/express/export/get_gene/list_genes) and
-     mutates them in place; any snapshot change of any lineage member is reported under its own
-     alias-* mechanism key;
+     mutates them in place; any snapshot change of any lineage member is recorded under its own
+     alias-* key (recorded, not judged);
   4. icontract postconditions attached from the harness to the real class ("a call that returns
-     False leaves the hash unchanged", "expression/express/replicate leave the own hash unchanged").
+     False leaves the hash unchanged", "expression/express/replicate leave the own hash unchanged");
+  5. environment: non-silent output goes to strict UTF-8 / latin-1 streams (print may raise), the
+     process time zone is stepped backwards and forwards between operations (TZ + tzset, restored after
+     every case), values include identity-only objects, and a small probe of the refusal obligations
+     runs in a child interpreter started with -O.
 """
 import contextlib
+import copy
+import gc
 import io
+import json
+import os
+import pickle
 import random as _global_random
+import subprocess
 import sys
+import threading
+import time
+from decimal import Decimal
+from enum import Enum
+from fractions import Fraction
 
 from rv import core
 
 PID = "C20"
 LEVEL = "exploration"
 TECHNIQUE = ("runtime monitoring: before/after snapshots of the whole lineage around every operation, replayed against an "
-             "immutable-configuration reference model; recording approval-callback stubs; in-place aliasing probes; "
-             "icontract postconditions on the real Genome class")
-RULE = ("case = (configuration, history of 1..8 operations over add_gene/mutate/rollback/expression/replicate/express on a "
-        "random member of the lineage); first cases are a systematic sweep allow x approval policy x gene type x "
-        "expression level with a scripted history. non-trivial = the history contains a refused change attempt and, "
-        "when the configuration can authorise anything, an authorised change, or a replication; "
-        "distinct = (configuration, op-kind trace, outcome trace)")
+             "immutable-configuration reference model that follows the current public settings; recording approval-callback "
+             "stubs (falsy / raising / non-bool answers); in-place aliasing probes; copy/deepcopy/pickle duplicates; strict "
+             "output streams; time-zone steps; -O child probe; icontract postconditions on the real Genome class")
+RULE = ("case = (configuration, history of 1..8 operations (a few sessions up to 40, marathon sessions of thousands) over "
+        "add_gene/mutate/rollback/expression/replicate/express/setting assignment/duplicate/read-only calls on a random "
+        "member of the lineage); first cases are a systematic sweep allow x approval policy x gene type x expression level "
+        "x 4 scripted histories. non-trivial = the history contains a refused change attempt and, when the configuration "
+        "can authorise anything, an authorised change, or a replication; distinct = (configuration, op-kind trace, outcome trace)")
 ASSUMPTIONS = [
-    "approval callbacks return a value and never raise, never re-enter the genome, never edit the Mutation record",
-    "gene values are JSON-like (int/float/str/bool/None/list/dict with str keys); no lone surrogates",
-    "authorisation of replicate()'s mutations is judged by the parent's settings (which the child inherits)",
+    "approval callbacks never re-enter the genome and never edit the Mutation record; a callback that raises has not approved",
+    "gene values are JSON-like (int/float/str/bool/None/list/dict with str keys, tuples, bytes, Fraction, Decimal, enum members) "
+    "or identity-only objects (sentinels, handles); identity-only values are compared by identity",
+    "authorisation is judged by the CURRENT public settings of the member the operation is called on (truthiness of "
+    "allow_mutations; approval by the object currently assigned to on_mutation); replicate()'s mutations are judged by the "
+    "parent's settings at that moment (which the child inherits)",
     "an authorised mutate() that is not applied is counted, not judged (the statement only restricts unauthorised change)",
-    "alias-* snapshot-change mechanisms are judged only for genomes with allow_mutations=False (changes seen on "
-    "genomes with mutations enabled are counted); alias-rollback-restores-edited-object is judged for every genome "
-    "because the rollback clause of the statement is unconditional",
+    "a call that raises (user callback raised, print to a strict stream raised, unusable mutation_rate) is judged on the state it "
+    "leaves: no unauthorised change anywhere; a refused attempt whose callback did not raise must still be logged",
+    "alias-* snapshot-change mechanisms are recorded, not judged; a copy.copy() duplicate is a second handle on shared state: "
+    "changes seen through the other handle must be authorised by the acting handle, nothing else is judged across handles",
     "a conditional gene is 'named in the context' when its name is a key of the context dict, whatever the value",
+    "rollback 'last approved mutation' = last in operation order, whatever the wall clock / time zone did in between",
 ]
 
 TYPES = ["structural", "regulatory", "housekeeping", "conditional", "dormant"]
 POLICIES = ["none", "all", "nobody", "subset", "once", "alternate", "gene", "truthy"]
+EXTRA_POLICIES = ["raise", "raise-some", "falsy-all", "falsy-bool-all"]
 SILENCED = 0
 
 SCRIPT = ["mutate", "mutate", "rollback", "add_existing", "silence", "express", "replicate", "mutate"]
 SCRIPT2 = ["mutate", "replicate", "mutate", "rollback", "express", "set_expression", "add_new", "express"]
+SCRIPT3 = ["mutate", "tz_back", "mutate_same", "rollback_same", "seal", "mutate_same", "rollback_same", "replicate"]
+SCRIPT4 = ["open", "mutate", "seal", "mutate_same", "rollback_same", "duplicate", "mutate_same", "reads"]
+SCRIPTS = [SCRIPT, SCRIPT2, SCRIPT3, SCRIPT4]
 SWEEP = [(allow, pol, t, lvl, sc) for allow in (False, True) for pol in POLICIES for t in range(5) for lvl in range(5)
-         for sc in (0, 1)]
+         for sc in range(4)]
+MARATHONS = 8
+PSEUDO = ("tz_back",)
+
+HOSTILE_NAMES = ["", " ", "a.b*", "{x}", "%s", "a\x00b", "line\nbreak", "G0", "g0 ", "é中", "a\udc80", "__class__",
+                 "(?P<n>x)", "\\d+", "{0}{1}", "%(x)s"]
+EXC_TYPES = [TypeError, KeyError, AssertionError, TimeoutError, ValueError, RuntimeError, LookupError, OSError]
+ZONES = [("UTC0", 0.0), ("VAA-14", 14.0), ("VBB12", -12.0), ("VCC-5:30", 5.5), ("VDD3", -3.0), ("VEE-1", 1.0), ("VFF-2", 2.0)]
+_TZ0 = os.environ.get("TZ")
 
 
 def plan(tier):
-    extra = 24000 if tier == "quick" else 800000
-    return {"cases": len(SWEEP) + extra, "shards": 8 if tier == "quick" else 14,
+    extra = 24000 if tier == "quick" else 500000
+    return {"cases": len(SWEEP) + MARATHONS + extra, "shards": 8 if tier == "quick" else 14,
             "min_nontrivial": 2000, "timeout": 600 if tier == "quick" else 2400,
             "require": {"ops": 50000, "refused_mutate_logged": 3000, "approved_by_callback": 1000,
                         "refused_readd": 500, "rollback_authorised": 300, "rollback_refused": 100,
@@ -64,12 +100,48 @@ def plan(tier):
                         "express_dormant_seen": 200, "express_silenced_seen": 200,
                         "snapshots": 200000, "other_member_snapshots_compared": 20000,
                         "alias_probes": 500, "contract_evaluations": 50000,
-                        "callback_calls": 3000}}
+                        "callback_calls": 3000,
+                        # round 4
+                        "setting_assignments": 1000, "attempts_after_sealing": 300, "attempts_after_callback_change": 300,
+                        "tz_backward_steps": 300, "rollback_across_backward_clock_step": 40,
+                        "identity_value_child_compared": 300, "duplicates": 200, "ops_on_duplicates": 300,
+                        "callback_raised_ops": 100, "print_raised_ops": 100, "refused_while_print_raises": 30,
+                        "falsy_callback_attempts": 100, "read_only_ops": 500, "churn_mutations": 500,
+                        "optimized_probe_cases": 100}}
 
 
 # ------------------------------------------------------------------ helpers
+class S(str):
+    """a str subclass"""
+
+
+class Sentinel:
+    """compares by identity only"""
+
+
+class Holder:
+    """identity-only payload whose attributes are named like the library's own labels"""
+
+    def __init__(self):
+        self.name, self.value, self.gene_type, self.approved, self.level = "g0", 1, "dormant", True, 0
+
+
+_ATOMS = (int, float, str, bool, type(None), bytes, complex, Fraction, Decimal)
+_IDS = {}
+_ALIVE = []
+_STUBS = {}
+_API_CALLED = set()
+
+
+def _reset_case_state():
+    _IDS.clear()
+    del _ALIVE[:]
+    _STUBS.clear()
+
+
 def canon(v, d=0):
-    """Typed canonical text of a JSON-like value (1, True and 1.0 differ; NaN equals itself)."""
+    """Typed canonical text of a value (1, True and 1.0 differ; NaN equals itself). Objects that are not plain data are
+    named by identity: the registry keeps them alive, so an index is never reused within a case."""
     if d > 8:
         return "<deep>"
     if isinstance(v, dict):
@@ -78,11 +150,29 @@ def canon(v, d=0):
         return "[" + ",".join(canon(x, d + 1) for x in v) + "]"
     if isinstance(v, tuple):
         return "(" + ",".join(canon(x, d + 1) for x in v) + ")"
-    return type(v).__name__ + ":" + repr(v)
+    if isinstance(v, _ATOMS) or isinstance(v, Enum):
+        return type(v).__name__ + ":" + repr(v)
+    k = _IDS.get(id(v))
+    if k is None:
+        k = _IDS[id(v)] = len(_ALIVE)
+        _ALIVE.append(v)
+    return "<obj %s #%d>" % (type(v).__name__, k)
+
+
+def has_identity(c):
+    return "<obj " in c
+
+
+def _lib():
+    import operon_ai.state.genome as m
+    return m
 
 
 def gen_scalar(rng):
-    k = rng.randrange(8)
+    if rng.random() < 0.74:
+        k = rng.randrange(8)
+    else:
+        k = 8 + rng.randrange(4)
     if k == 0:
         return rng.choice([0, 1, -1, 2, 7, 10, 4096, -300, 10 ** 12])
     if k == 1:
@@ -97,7 +187,28 @@ def gen_scalar(rng):
         return rng.randrange(-50, 50)
     if k == 6:
         return round(rng.uniform(-10, 10), 3)
-    return "s%d" % rng.randrange(6)
+    if k == 7:
+        return "s%d" % rng.randrange(6)
+    if k == 8:      # boundaries of the arithmetic
+        return rng.choice([2 ** 53 + 1, 2 ** 64, -2 ** 63, 10 ** 30, -0.0, float("nan"), float("-inf"), 0.1 + 0.2, 0.3,
+                           5e-324, 10 ** 400])
+    if k == 9:      # other value types
+        j = rng.randrange(8)
+        return [Fraction(1, 3), Decimal("0.10"), Decimal("NaN"), S("sub"), b"x", (1, 2), ("a", [1]), 1 + 2j][j]
+    if k == 10:     # identity-only values
+        r = rng.random()
+        if r < 0.5:
+            return Sentinel()
+        if r < 0.68:
+            return object()
+        if r < 0.78:
+            return rng.choice([_lib().ExpressionLevel.SILENCED, _lib().GeneType.DORMANT])
+        if r < 0.88:
+            return _lib().Gene(name="inner", value=1)
+        if r < 0.97:
+            return Holder()
+        return threading.Lock()
+    return rng.choice(["a\udc80", "%s{}\\d+", "a\x00b", "line\nbreak", "\U0001f9ec"])
 
 
 def gen_value(rng, mutable_p=0.35, depth=0):
@@ -119,24 +230,42 @@ def mutate_in_place(obj, rng):
         obj["<edited-in-place>"] = 1
 
 
+def rate_is_zero(rate):
+    try:
+        return not (rate > 0)
+    except Exception:
+        return False
+
+
+def _stub_lookup(key):
+    return _STUBS[key]
+
+
 class Stub:
-    """Recording approval callback."""
+    """Recording approval callback. Copies and pickles like a function does: by reference."""
+    falsy = False
 
-    def __init__(self, policy, salt, ctx):
-        self.policy, self.salt, self.ctx = policy, salt, ctx
-        self.calls = []
+    def __init__(self, policy, salt, hist, key):
+        self.policy, self.salt, self.ctx, self.key = policy, salt, hist.ctx, key
+        self.sink = hist.calls
         self.n = 0
+        _STUBS[key] = self
 
-    def __call__(self, mutation):
+    def __call__(self, mutation, *extra, **kw):
         self.n += 1
         self.ctx.count("callback_calls")
         g, nv = mutation.gene_name, canon(mutation.new_value)
         p = self.policy
-        if p == "all":
+        raised = None
+        if p == "raise":
+            raised = EXC_TYPES[core.stable_hash(self.salt, self.n) % len(EXC_TYPES)]
+        elif p == "raise-some" and core.stable_hash(self.salt, g, nv, "r") % 3 == 0:
+            raised = EXC_TYPES[core.stable_hash(self.salt, g, nv) % len(EXC_TYPES)]
+        if p in ("all", "falsy-all", "falsy-bool-all"):
             d = True
-        elif p == "nobody":
+        elif p in ("nobody", "raise"):
             d = False
-        elif p in ("subset", "truthy"):
+        elif p in ("subset", "truthy", "raise-some"):
             d = core.stable_hash(self.salt, g, nv) % 2 == 0
         elif p == "once":
             d = self.n == 1
@@ -144,20 +273,56 @@ class Stub:
             d = self.n % 2 == 1
         else:  # "gene"
             d = core.stable_hash(self.salt, g) % 2 == 0
-        self.calls.append((g, nv, canon(mutation.original_value), d))
+        if raised is not None:
+            d = False
+        self.sink.append((g, nv, canon(mutation.original_value), d, self, raised is not None))
+        if raised is not None:
+            self.ctx.count("callback_raised")
+            raise raised("approval callback failed")
         if p == "truthy":
             k = core.stable_hash(self.salt, self.n) % 3
             return ("yes", 1, [0])[k] if d else (None, 0, "")[k]
         return d
 
+    def __deepcopy__(self, memo):
+        return self
+
+    def __copy__(self):
+        return self
+
+    def __reduce__(self):
+        return (_stub_lookup, (self.key,))
+
+    def __repr__(self):
+        return "<stub %s %s>" % (self.key, self.policy)
+
+
+class FalsyLenStub(Stub):
+    """a callable container that is empty: bool(stub) is False"""
+    falsy = True
+
+    def __len__(self):
+        return 0
+
+
+class FalsyBoolStub(Stub):
+    falsy = True
+
+    def __bool__(self):
+        return False
+
 
 class Node:
-    def __init__(self, idx, g, parent, allow, has_cb):
-        self.idx, self.g, self.parent, self.allow, self.has_cb = idx, g, parent, allow, has_cb
+    def __init__(self, idx, g, parent, allow, cb, rate, silent, group):
+        self.idx, self.g, self.parent = idx, g, parent
+        self.allow, self.cb, self.rate, self.silent, self.group = bool(allow), cb, rate, silent, group
         self.vals = {}      # name -> canon of the authorised value
         self.types = {}     # name -> gene_type value
         self.levels = {}    # name -> expression level value
-        self.log = []       # (gene, canon of value before, approved) ; None = unknown
+        self.log = []       # (gene, canon of value before, approved, backward-clock epoch) ; None = unknown
+        self.sealed_after_open = False
+        self.cb_changed = False
+        self.duplicate = False
 
 
 _MISSING = object()
@@ -191,6 +356,21 @@ def snap(ctx, g):
 def snap_config(s):
     """The part of a snapshot that only authorised operations may change."""
     return (s["genes"], s["hash"], s["stat_hash"], s["values"], s["generation"], s["parent_hash"])
+
+
+def make_sink(kind):
+    if kind == "stringio":
+        return io.StringIO()
+    enc = "utf-8" if kind == "utf8-strict" else "latin-1"
+    return io.TextIOWrapper(io.BytesIO(), encoding=enc, errors="strict", write_through=True)
+
+
+def _set_tz(name):
+    if name is None:
+        os.environ.pop("TZ", None)
+    else:
+        os.environ["TZ"] = name
+    time.tzset()
 
 
 # ------------------------------------------------------------------ contracts
@@ -251,38 +431,78 @@ def teardown_shard(ctx):
             setattr(cls, k, v)
     _CONTRACT["installed"] = None
     _CONTRACT["ctx"] = None
+    try:
+        Genome = _lib().Genome
+        public = [n for n in dir(Genome) if not n.startswith("_") and callable(getattr(Genome, n))]
+        for n in public:
+            if n not in _API_CALLED:
+                ctx.count("api_never_called_in_shard:" + n)
+        ctx.maxc("public_methods", len(public))
+    except Exception:
+        pass
 
 
 # ------------------------------------------------------------------ case driver
-def run_case(ctx, n):
-    rng = ctx.rng(n)
+def make_case(ctx, rng, n):
+    tier_marathon = 700 if ctx.tier == "quick" else (25000 if n == len(SWEEP) else 4000)
     if n < len(SWEEP):
         allow, pol, t, lvl, sc = SWEEP[n]
-        cfg = {"allow": allow, "policy": pol, "rate": 0.0, "silent": True, "alias": False,
+        cfg = {"allow": allow, "policy": pol, "rate": 0.0, "silent": True, "alias": False, "sink": "stringio", "tz": sc == 2,
+               "ctor": "list", "unsilence_at": None,
                "genes": [{"name": "g0", "type": TYPES[t], "level": lvl, "required": False, "value": gen_value(rng)},
                          {"name": "g1", "type": TYPES[(t + 1) % 5], "level": (lvl + 2) % 5, "required": True,
                           "value": gen_value(rng)}]}
-        kinds = list(SCRIPT if sc == 0 else SCRIPT2)
-    else:
-        ng = rng.randint(1, 6)
-        genes = []
-        for i in range(ng):
-            name = "g%d" % i
-            if i > 0 and rng.random() < 0.06:
-                name = "g%d" % rng.randrange(i)          # duplicate name inside the initial gene list
-            genes.append({"name": name, "type": rng.choice(TYPES), "level": rng.choice([0, 1, 2, 2, 2, 3, 4]),
-                          "required": rng.random() < 0.3, "value": gen_value(rng)})
-        cfg = {"allow": rng.random() < 0.3, "policy": rng.choice(POLICIES),
-               "rate": rng.choice([0.0, 0.0, 0.0, 1.0, 0.5]), "silent": rng.random() < 0.9,
-               "alias": rng.random() < 0.25, "genes": genes}
-        kinds = None
-    depth = len(kinds) if kinds else rng.randint(1, 8)
-    out = io.StringIO()
+        kinds = list(SCRIPTS[sc])
+        return cfg, kinds, len(kinds)
+    marathon = n < len(SWEEP) + MARATHONS
+    ng = rng.randint(1, 6)
+    genes = []
+    hostile = rng.random() < 0.2
+    for i in range(ng):
+        name = "g%d" % i
+        if hostile and rng.random() < 0.6:
+            name = rng.choice(HOSTILE_NAMES)
+            if rng.random() < 0.2:
+                name = S(name)
+        if i > 0 and rng.random() < 0.06:
+            name = genes[rng.randrange(i)]["name"]          # duplicate name inside the initial gene list
+        genes.append({"name": name, "type": rng.choice(TYPES), "level": rng.choice([0, 1, 2, 2, 2, 3, 4]),
+                      "required": rng.random() < 0.3, "value": gen_value(rng)})
+    policy = rng.choice(POLICIES) if rng.random() < 0.8 else rng.choice(EXTRA_POLICIES)
+    sink = rng.choice(["stringio"] * 6 + ["utf8-strict"] * 3 + ["latin1-strict"])
+    cfg = {"allow": rng.random() < 0.3, "policy": policy,
+           "rate": rng.choice([0.0, 0.0, 0.0, 0, 1.0, 0.5, 1, True, Fraction(1, 2), Decimal("0.5"), 1e-9, 5, -1]),
+           "silent": rng.random() < 0.85, "alias": rng.random() < 0.25, "sink": sink, "tz": rng.random() < 0.3,
+           "ctor": rng.choice(["list", "list", "list", "tuple", "generator", "iter", "from_dict", "add_later"]),
+           "unsilence_at": None, "genes": genes}
+    depth = rng.randint(1, 8)
+    if rng.random() < 0.03:
+        depth = rng.randint(9, 40)
+    if marathon:
+        depth = tier_marathon
+        cfg["alias"] = False
+    if sink != "stringio" and rng.random() < 0.7:
+        cfg["silent"] = True                      # built silently, made verbose later through the public attribute
+        cfg["unsilence_at"] = rng.randrange(depth)
+    if rng.random() < 0.01:
+        cfg["rate"] = rng.choice([None, "0.5"])
+    return cfg, None, depth
+
+
+def run_case(ctx, n):
+    rng = ctx.rng(n)
+    _reset_case_state()
+    cfg, kinds, depth = make_case(ctx, rng, n)
+    h = History(ctx, rng, cfg)
     try:
-        with contextlib.redirect_stdout(out):
-            History(ctx, rng, cfg).run(depth, kinds)
+        h.run(depth, kinds)
     except ContractBroken as e:
-        ctx.violation("contract:" + str(e).split(":")[0], "icontract postcondition failed: %s" % e, {"config": cfg})
+        ctx.violation("contract:" + str(e).split(":")[0], "icontract postcondition failed: %s" % e,
+                      {"config": cfg, "history": h.trace})
+    finally:
+        if h.tz_touched:
+            _set_tz(_TZ0)
+        _reset_case_state()
 
 
 class History:
@@ -290,33 +510,42 @@ class History:
         self.ctx, self.rng, self.cfg = ctx, rng, cfg
         self.nodes = []
         self.trace = []        # JSON-able op descriptions (the witness)
+        self.dropped = 0
         self.kinds = []
         self.outcomes = []
         self.kept = []         # (object, route, node idx) references the workload keeps
+        self.genes_made = []   # Gene objects handed to some member (re-used: the same object in several genomes)
         self.pool = []         # values used so far (re-used so that subset policies see repeats)
         self.aliased = False   # an in-place edit of a kept reference has happened
-        self.stub = None
+        self.calls = []        # shared sink of all stubs of this case
+        self.stubs = []
         self.flags = set()
         self.stop = False
+        self.sink = make_sink(cfg["sink"])
+        self.tz_touched = False
+        self.tz_off = None
+        self.back_epoch = 0
+        self.last_gene = None
+        self.last_node = None
+        self.nops = 0
+        self.churn_serial = 0
 
     # -------------------------------------------------------------- utilities
     def witness(self, **kw):
-        w = {"config": self.cfg, "history": self.trace}
+        w = {"config": self.cfg, "history": self.trace, "earlier_operations_not_shown": self.dropped}
         w.update(kw)
         return w
 
     def keep(self, v, route, idx):
-        if isinstance(v, (list, dict)):
+        if isinstance(v, (list, dict)) and len(self.kept) < 64:
             self.kept.append((v, route, idx))
 
     def fresh_value(self):
         r = self.rng.random()
         if self.pool and r < 0.25:
-            import copy
             return copy.deepcopy(self.rng.choice(self.pool))
         v = gen_value(self.rng)
-        if len(self.pool) < 12:
-            import copy
+        if len(self.pool) < 12 and not has_identity(canon(v)):
             self.pool.append(copy.deepcopy(v))
         return v
 
@@ -324,28 +553,85 @@ class History:
         return [snap(self.ctx, nd.g) for nd in self.nodes]
 
     def drain(self):
-        if self.stub is None:
-            return []
-        c, self.stub.calls = self.stub.calls, []
+        c = list(self.calls)
+        del self.calls[:]
         return c
 
+    def api(self, name):
+        _API_CALLED.add(name)
+
+    def invoke(self, name, fn):
+        """Run one library call with stdout on the case's sink. Returns (True, result) or (False, exception)."""
+        self.api(name)
+        try:
+            with contextlib.redirect_stdout(self.sink):
+                return True, fn()
+        except Exception as e:
+            self.ctx.count("call_raised:" + type(e).__name__)
+            return False, e
+
+    def approved_by(self, nd, calls, name, valc):
+        """The member's CURRENT callback approved exactly this change during this call."""
+        return any(c[0] == name and c[1] == valc and c[3] and c[4] is nd.cb for c in calls)
+
     def real_log(self, g):
-        lg = getattr(g, "_mutations", None)
+        lg = getattr(g, "_mutations", None)      # informational only; every judged obligation uses the public counters
         return lg if isinstance(lg, list) else None
+
+    def log_add(self, nd, name, prev, approved):
+        if nd.log is not None:
+            nd.log.append((name, prev, approved, self.back_epoch))
+
+    def sync(self, nd, s):
+        nd.vals = dict(s["values"])
+        nd.types = {t[0]: t[2] for t in s["genes"]}
+        nd.levels = dict(s["levels"])
+
+    def new_stub(self, policy=None):
+        if policy is None:
+            policy = self.rng.choice(POLICIES[1:]) if self.rng.random() < 0.75 else self.rng.choice(EXTRA_POLICIES)
+        cls = {"falsy-all": FalsyLenStub, "falsy-bool-all": FalsyBoolStub}.get(policy, Stub)
+        s = cls(policy, self.rng.getrandbits(32), self, "s%d" % len(self.stubs))
+        self.stubs.append(s)
+        return s
 
     # -------------------------------------------------------------- construction
     def build(self):
-        from operon_ai.state.genome import Genome, Gene, GeneType, ExpressionLevel
-        self.Gene, self.GeneType, self.ExpressionLevel, self.Genome = Gene, GeneType, ExpressionLevel, Genome
+        m = _lib()
+        self.Gene, self.GeneType, self.ExpressionLevel, self.Genome = m.Gene, m.GeneType, m.ExpressionLevel, m.Genome
         cfg = self.cfg
+        stub = None
         if cfg["policy"] != "none":
-            self.stub = Stub(cfg["policy"], self.rng.getrandbits(32), self.ctx)
+            stub = self.new_stub(cfg["policy"])
+        ctor = cfg["ctor"]
+        if ctor == "from_dict":
+            seen = {}
+            for gd in cfg["genes"]:
+                gd["type"], gd["level"], gd["required"] = "structural", 2, False
+                seen[gd["name"]] = gd
+            cfg["genes"] = list(seen.values())
         genes = []
         for gd in cfg["genes"]:
             genes.append(self.make_gene(gd["name"], gd["value"], gd["type"], gd["level"], gd["required"], None))
-        g = Genome(genes=genes, allow_mutations=cfg["allow"], mutation_rate=cfg["rate"], on_mutation=self.stub,
-                   silent=cfg["silent"])
-        nd = Node(0, g, None, cfg["allow"], self.stub is not None)
+        kw = dict(allow_mutations=cfg["allow"], mutation_rate=cfg["rate"], on_mutation=stub, silent=cfg["silent"])
+        if ctor == "from_dict":
+            ok, g = self.invoke("from_dict", lambda: self.Genome.from_dict({gd["name"]: gd["value"] for gd in cfg["genes"]}, **kw))
+        elif ctor == "add_later":
+            ok, g = self.invoke("__init__", lambda: self.Genome(**kw))
+            if ok:
+                for gene in genes:
+                    ok2, e = self.invoke("add_gene", lambda: g.add_gene(gene))
+                    if not ok2:
+                        self.ctx.count("construct_add_raised")
+        else:
+            arg = {"list": lambda: list(genes), "tuple": lambda: tuple(genes), "generator": lambda: (x for x in genes),
+                   "iter": lambda: iter(genes)}[ctor]()
+            ok, g = self.invoke("__init__", lambda: self.Genome(arg, **kw) if self.rng.random() < 0.3 else self.Genome(genes=arg, **kw))
+        if not ok:
+            self.ctx.count("construct_raised")
+            return False
+        self.ctx.count("ctor:" + ctor)
+        nd = Node(0, g, None, cfg["allow"], stub, cfg["rate"], cfg["silent"], 0)
         # model of construction = add_gene semantics applied in order
         for gd in cfg["genes"]:
             if gd["name"] in nd.vals and not cfg["allow"]:
@@ -356,12 +642,19 @@ class History:
         self.nodes.append(nd)
         self.kept = [(o, r, 0 if i is None else i) for (o, r, i) in self.kept]
         s = snap(self.ctx, g)
+        if ctor == "add_later" and dict(s["values"]) != nd.vals:
+            self.ctx.count("construct_add_later_partial")       # a print raised between store and return
         self.compare_model(nd, s, "construct")
+        self.sync(nd, s) if ctor == "add_later" else None
+        return True
 
     def make_gene(self, name, value, gtype, level, required, idx):
         self.keep(value, "ctor", idx)
-        return self.Gene(name=name, value=value, gene_type=self.GeneType(gtype), description="d-" + name,
-                         required=required, default_expression=self.ExpressionLevel(level))
+        g = self.Gene(name=name, value=value, gene_type=self.GeneType(gtype), description="d-" + name,
+                      required=required, default_expression=self.ExpressionLevel(level))
+        if len(self.genes_made) < 32:
+            self.genes_made.append((g, gtype, level))
+        return g
 
     def compare_model(self, nd, s, where):
         """The model's authorised values must be what the genome stores."""
@@ -381,7 +674,7 @@ class History:
             lvl = dict(s["levels"]).get(name)
             want = "<default>" if lvl == SILENCED else actual[name]
             if gv != want:
-                self.ctx.violation("get_value-differs-from-stored", "get_value(%s) returned %s, stored %s (level %r)" % (
+                self.ctx.violation("get_value-differs-from-stored", "get_value(%r) returned %s, stored %s (level %r)" % (
                     name, gv, actual[name], lvl), self.witness(member=nd.idx))
         if s["hash"] != s["stat_hash"]:
             self.ctx.violation("statistics-hash", "get_statistics()['hash'] != get_hash()", self.witness(member=nd.idx))
@@ -390,30 +683,78 @@ class History:
     # -------------------------------------------------------------- main loop
     def run(self, depth, forced_kinds):
         ctx = self.ctx
-        self.build()
+        if self.cfg["tz"]:
+            self.tz_set(0)
+        if not self.build():
+            return
+        deadline = ctx.t0 + 0.7 * plan(ctx.tier)["timeout"]
         for i in range(depth):
             if self.stop:
                 break
+            if i > 40 and i % 256 == 0 and time.time() > deadline:
+                ctx.count("marathon_cut_short_by_shard_budget")     # workload size only, never a verdict
+                break
+            if self.cfg["unsilence_at"] == i:
+                self.unsilence()
             kind = forced_kinds[i] if forced_kinds else self.pick_kind()
+            if kind in PSEUDO:
+                self.tz_step(back=True)
+                continue
+            if self.cfg["tz"] and not forced_kinds and self.rng.random() < 0.2:
+                self.tz_step(back=self.rng.random() < 0.6)
             nd = self.rng.choice(self.nodes)
             if forced_kinds and kind == "mutate" and i == len(forced_kinds) - 1 and len(self.nodes) > 1:
                 nd = self.nodes[-1]
+            name = None
+            if kind.endswith("_same"):
+                kind = kind[:-5]
+                if self.last_node is not None:
+                    nd, name = self.last_node, self.last_gene
+            self.nops += 1
+            if self.nops % 300 == 0:
+                self.sink = make_sink(self.cfg["sink"])
             ctx.count("ops")
             ctx.count("op:" + kind)
-            getattr(self, "op_" + kind)(nd)
+            if nd.duplicate:
+                ctx.count("ops_on_duplicates")
+            if name is not None:
+                getattr(self, "op_" + kind)(nd, name=name)
+            else:
+                getattr(self, "op_" + kind)(nd)
         ctx.maxc("lineage_size", len(self.nodes))
+        ctx.maxc("history_length", self.nops)
         refused = "refused" in self.flags
-        can_authorise = self.cfg["allow"] or self.cfg["policy"] not in ("none", "nobody")
+        can_authorise = self.cfg["allow"] or self.cfg["policy"] not in ("none", "nobody", "raise") or "reconfigured" in self.flags
         if refused or self.cfg["allow"]:
             if "authorised" in self.flags or not can_authorise or "replicated" in self.flags:
-                cfgkey = (self.cfg["allow"], self.cfg["policy"], self.cfg["rate"],
+                cfgkey = (self.cfg["allow"], self.cfg["policy"], repr(self.cfg["rate"]), self.cfg["sink"], self.cfg["ctor"],
                           tuple((g["name"], g["type"], g["level"], canon(g["value"])) for g in self.cfg["genes"]))
-                ctx.nontrivial((cfgkey, tuple(self.kinds), tuple(self.outcomes)))
-        ctx.sample({"config": self.cfg, "history": self.trace}, cap=3)
+                ctx.nontrivial((cfgkey, tuple(self.kinds[-80:]), tuple(self.outcomes[-80:])))
+        ctx.sample({"config": self.cfg, "history": self.trace[:12]}, cap=3)
+
+    def retire(self):
+        """Marathon sessions: drop one non-root member so that the lineage (and the snapshot cost) stays bounded."""
+        victim = self.rng.choice(self.nodes[1:])
+        self.nodes.remove(victim)
+        for i, nd in enumerate(self.nodes):
+            nd.idx = i
+        if self.last_node is victim:
+            self.last_node = None
+        self.ctx.count("members_retired")
+        self.trace.append({"env": "member retired, members renumbered", "was": victim.idx})
 
     def pick_kind(self):
+        many = len(self.nodes) >= 5
+        if len(self.nodes) >= 7:
+            if self.cfg["alias"]:
+                many = True
+            else:
+                self.retire()
         w = [("mutate", 30), ("add_existing", 9), ("add_new", 5), ("rollback", 13), ("set_expression", 6),
-             ("silence", 4), ("activate", 3), ("replicate", 12 if len(self.nodes) < 5 else 2), ("express", 10)]
+             ("silence", 4), ("activate", 3), ("replicate", 2 if many else 12), ("express", 10),
+             ("reconfigure", 9), ("duplicate", 1 if many else 4), ("reads", 4), ("churn", 2)]
+        if len(self.nodes) >= 8:
+            w = [x for x in w if x[0] not in ("replicate", "duplicate")]
         if self.cfg["alias"]:
             w.append(("alias", 14))
         tot = sum(x for _, x in w)
@@ -430,6 +771,47 @@ class History:
         d = {"op": kind, "on": nd.idx, "outcome": outcome}
         d.update(kw)
         self.trace.append(core.jsonable(d))
+        if len(self.trace) > 80:
+            del self.trace[:20]
+            self.dropped += 20
+            del self.kinds[:-100]
+            del self.outcomes[:-100]
+
+    # -------------------------------------------------------------- environment steps
+    def tz_set(self, zi):
+        self.tz_touched = True
+        name, off = ZONES[zi]
+        _set_tz(name)
+        old, self.tz_off = self.tz_off, off
+        self.ctx.count("tz_steps")
+        if abs(-time.timezone / 3600.0 - off) > 1e-6:
+            self.ctx.inconclusive("time.tzset() did not move the local clock to TZ=%s" % name)
+            return
+        if old is not None and off < old:
+            self.ctx.count("tz_backward_steps")
+            self.back_epoch += 1
+            self.trace.append({"env": "local clock stepped back", "TZ": name, "hours": old - off})
+        elif old is not None:
+            self.trace.append({"env": "TZ", "TZ": name})
+
+    def tz_step(self, back):
+        cur = self.tz_off if self.tz_off is not None else 0.0
+        if back:
+            lower = [i for i, (_, off) in enumerate(ZONES) if off < cur]
+            if not lower:
+                self.tz_set(1)                 # jump to UTC+14 first (forward), then back
+                cur = self.tz_off
+                lower = [i for i, (_, off) in enumerate(ZONES) if off < cur]
+            self.tz_set(self.rng.choice(lower))
+        else:
+            self.tz_set(self.rng.randrange(len(ZONES)))
+
+    def unsilence(self):
+        for nd in self.nodes:
+            nd.g.silent = False
+            nd.silent = False
+        self.ctx.count("setting_assignments", len(self.nodes))
+        self.trace.append({"env": "silent = False assigned on every member", "sink": self.cfg["sink"]})
 
     # -------------------------------------------------------------- generic frame invariant
     def frame(self, kind, nd, before, after, calls, new_gene=None, meta_may_change=()):
@@ -438,8 +820,22 @@ class History:
         for other in self.nodes:
             if other is nd or other.idx >= len(before):
                 continue
-            ctx.count("other_member_snapshots_compared")
             b, a = before[other.idx], after[other.idx]
+            if other.group == nd.group:
+                # a second handle on shared state (copy.copy): only "no unauthorised value change" is judged
+                ctx.count("shared_handle_snapshots_compared")
+                if a != b:
+                    bv, av = dict(b["values"]), dict(a["values"])
+                    for name in set(bv) & set(av):          # a gene under a new name is not a change of a stored value
+                        if bv.get(name) != av.get(name) and not (
+                                nd.allow or self.approved_by(nd, calls, name, av.get(name))):
+                            ctx.violation("unauthorised-value-change-through-shared-handle:" + kind,
+                                          "%s on genome #%d changed value of %r seen through handle #%d without authorisation"
+                                          % (kind, nd.idx, name, other.idx), self.witness(member=nd.idx, gene=name))
+                    self.sync(other, a)
+                    other.log = None
+                continue
+            ctx.count("other_member_snapshots_compared")
             if a != b:
                 what = [k for k in a if a[k] != b[k]]
                 mech = "replicate-alters-other-member" if kind == "replicate" else "cross-genome-effect:" + kind
@@ -450,16 +846,17 @@ class History:
         changed = set()
         for name, old in bv.items():
             if name not in av:
-                ctx.violation("gene-disappeared:" + kind, "gene %s vanished" % name, self.witness(member=nd.idx))
+                ctx.violation("gene-disappeared:" + kind, "gene %r vanished" % name, self.witness(member=nd.idx))
                 continue
             if av[name] != old:
                 changed.add(name)
-                ok = nd.allow or any(c[0] == name and c[1] == av[name] and c[3] for c in calls)
+                ok = nd.allow or self.approved_by(nd, calls, name, av[name])
                 if not ok:
                     ctx.violation("unauthorised-value-change:" + kind,
-                                  "%s changed stored value of %s from %s to %s with mutations disabled and no approval "
-                                  "of that change" % (kind, name, old, av[name]),
-                                  self.witness(member=nd.idx, gene=name, approvals_asked=calls))
+                                  "%s changed stored value of %r from %s to %s with mutations disabled and no approval "
+                                  "of that change by the current callback" % (kind, name, old, av[name]),
+                                  self.witness(member=nd.idx, gene=name, approvals_asked=calls,
+                                               settings_changed_after_construction=nd.sealed_after_open or nd.cb_changed))
         added = [x for x in av if x not in bv]
         if added and added != [new_gene]:
             ctx.violation("unexpected-gene:" + kind, "genes %r appeared" % added, self.witness(member=nd.idx))
@@ -490,49 +887,101 @@ class History:
                           self.witness(member=nd.idx, before=b, after=a))
         return changed
 
+    def after_raise(self, kind, nd, name, before, after, calls, exc, authorised, known):
+        """A mutate/rollback call raised. frame() has judged the values; here: the refusal must still be on the log."""
+        ctx = self.ctx
+        b, a = before[nd.idx], after[nd.idx]
+        dlog = (a["log"][0] - b["log"][0], a["log"][1] - b["log"][1])
+        cb_raised = any(c[5] for c in calls)
+        if cb_raised:
+            ctx.count("callback_raised_ops")
+        else:
+            ctx.count("print_raised_ops" if isinstance(exc, UnicodeEncodeError) else "other_raised_ops")
+        if known and not authorised and not cb_raised:
+            # the attempt was refused (nobody approved, the callback - if any - answered) and the call then raised
+            self.flags.add("refused")
+            ctx.count("refused_while_print_raises")
+            if dlog != (1, 0):
+                why = "print-raised" if isinstance(exc, UnicodeEncodeError) else "raised-" + type(exc).__name__
+                ctx.violation("refused-%s-not-logged:%s" % (kind, why),
+                              "%s of %r was refused and then raised %s; (mutations_count, approved_mutations) changed by %r "
+                              "instead of (1, 0): the refused attempt is not on the log" % (kind, name, type(exc).__name__, dlog),
+                              self.witness(member=nd.idx, gene=name, sink=self.cfg["sink"], silent=nd.silent))
+        prev = nd.vals.get(name)
+        if dlog == (1, 1):
+            self.log_add(nd, name, prev, True)
+        elif dlog == (1, 0):
+            self.log_add(nd, name, prev, False)
+        elif dlog != (0, 0):
+            nd.log = None
+        self.sync(nd, a)
+        self.record(kind, nd, "raised:" + type(exc).__name__, gene=name)
+
     # -------------------------------------------------------------- operations
     def pick_gene_name(self, nd, unknown_p=0.08):
         names = list(nd.vals)
         if not names or self.rng.random() < unknown_p:
-            return "nope%d" % self.rng.randrange(3)
+            return "nope%d" % self.rng.randrange(3) if self.rng.random() < 0.7 else self.rng.choice(HOSTILE_NAMES)
         return self.rng.choice(names)
 
-    def op_mutate(self, nd):
+    def op_mutate(self, nd, name=None, value=_MISSING):
         ctx = self.ctx
-        name = self.pick_gene_name(nd)
+        if name is None:
+            name = self.pick_gene_name(nd)
         r = self.rng.random()
-        if name in nd.vals and r < 0.08:
+        if value is not _MISSING:
+            new = value
+        elif name in nd.vals and r < 0.08 and nd.g.get_gene(name) is not None:
             new = nd.g.get_gene(name).value          # "mutation" to the identical stored object
             self.keep(new, "gene-object", nd.idx)
         else:
             new = self.fresh_value()
             self.keep(new, "mutate-arg", nd.idx)
         newc = canon(new)
+        self.last_gene, self.last_node = name, nd
+        form = self.rng.randrange(3)
         before = self.snaps()
-        ret = nd.g.mutate(name, new, "r")
+        if form == 0:
+            ok, ret = self.invoke("mutate", lambda: nd.g.mutate(name, new, "r"))
+        elif form == 1:
+            ok, ret = self.invoke("mutate", lambda: nd.g.mutate(name, new))
+        else:
+            ok, ret = self.invoke("mutate", lambda: nd.g.mutate(gene_name=name, new_value=new, reason="why\udc80{}%s"))
         after = self.snaps()
         calls = self.drain()
         self.frame("mutate", nd, before, after, calls)
         b, a = before[nd.idx], after[nd.idx]
         dlog = (a["log"][0] - b["log"][0], a["log"][1] - b["log"][1])
-        if name not in nd.vals:
+        known = name in nd.vals
+        authorised = nd.allow or self.approved_by(nd, calls, name, newc)
+        if known and not nd.allow:
+            if nd.sealed_after_open:
+                ctx.count("attempts_after_sealing")
+            if nd.cb_changed:
+                ctx.count("attempts_after_callback_change")
+            if nd.cb is not None and nd.cb.falsy:
+                ctx.count("falsy_callback_attempts")
+                ctx.count("falsy_callback_consulted" if calls else "falsy_callback_not_consulted")
+        if not ok:
+            self.after_raise("mutate", nd, name, before, after, calls, ret, authorised, known)
+            return
+        if not known:
             if ret or snap_config(a) != snap_config(b):
                 ctx.violation("mutate-unknown-gene", "mutate on an unknown gene returned %r / changed the genome" % (ret,),
                               self.witness(member=nd.idx))
             self.record("mutate", nd, "unknown", gene=name)
             return
-        authorised = nd.allow or any(c[0] == name and c[1] == newc and c[3] for c in calls)
-        if nd.has_cb and not nd.allow:
+        if nd.cb is not None and not nd.allow:
             ctx.count("callback_consulted_ops" if calls else "callback_not_consulted_ops")
         if not authorised:
             self.flags.add("refused")
-            ok = True
+            good = True
             if ret:
-                ok = False
+                good = False
                 ctx.violation("refused-mutate-returns-true", "mutate returned %r for a change nobody authorised" % (ret,),
-                              self.witness(member=nd.idx, gene=name))
+                              self.witness(member=nd.idx, gene=name, approvals_asked=calls))
             if dlog != (1, 0):
-                ok = False
+                good = False
                 ctx.violation("refused-mutate-not-logged",
                               "refused mutate changed (mutations_count, approved_mutations) by %r instead of (1, 0)" % (dlog,),
                               self.witness(member=nd.idx, gene=name, new=newc))
@@ -543,15 +992,15 @@ class History:
                     m = lg[-1]
                     if m.gene_name != name or m.approved or canon(m.new_value) != newc \
                             or canon(m.original_value) != nd.vals[name]:
-                        ok = False
+                        good = False
                         ctx.violation("refused-mutate-log-entry",
                                       "last log entry does not describe the refused attempt",
                                       self.witness(member=nd.idx, gene=name, entry=repr(m)))
             if snap_config(a) != snap_config(b):
-                ok = False   # already reported by frame()
-            if ok:
+                good = False   # already reported by frame()
+            if good:
                 ctx.count("refused_mutate_logged")
-            nd.log.append((name, nd.vals[name], False)) if nd.log is not None else None
+            self.log_add(nd, name, nd.vals[name], False)
             self.record("mutate", nd, "refused", gene=name, new=newc)
             return
         # authorised
@@ -567,14 +1016,12 @@ class History:
                 ctx.violation("approved-mutate-not-logged",
                               "authorised mutate changed (mutations_count, approved_mutations) by %r instead of (1, 1)" % (dlog,),
                               self.witness(member=nd.idx, gene=name, new=newc))
-            if nd.log is not None:
-                nd.log.append((name, nd.vals[name], True))
+            self.log_add(nd, name, nd.vals[name], True)
             nd.vals[name] = newc
             self.record("mutate", nd, "applied", gene=name, new=newc)
         elif stored == nd.vals[name]:
             ctx.count("authorised_mutation_not_applied")
-            if nd.log is not None:
-                nd.log.append((name, nd.vals[name], dlog[1] > 0))
+            self.log_add(nd, name, nd.vals[name], dlog[1] > 0)
             self.record("mutate", nd, "authorised-not-applied", gene=name, new=newc)
         else:
             ctx.violation("mutate-stores-other-value", "authorised change to %s but stored %s" % (newc, stored),
@@ -582,16 +1029,40 @@ class History:
             nd.vals[name] = stored
             self.record("mutate", nd, "other", gene=name, new=newc)
 
-    def op_rollback(self, nd):
+    def op_churn(self, nd):
+        """Many short-lived equal-length inputs on one gene (address reuse), each judged like any mutate."""
+        names = list(nd.vals)
+        if not names:
+            return self.op_mutate(nd)
+        name = self.rng.choice(names)
+        k = self.rng.randint(4, 12)
+        collect = self.rng.random() < 0.08
+        for i in range(k):
+            if self.stop:
+                break
+            self.churn_serial += 1
+            j = self.rng.randrange(3)
+            v = ("v%06d" % self.churn_serial) if j == 0 else [self.churn_serial] if j == 1 else {"k": "%06d" % self.churn_serial}
+            self.ctx.count("ops")
+            self.ctx.count("churn_mutations")
+            self.op_mutate(nd, name=name, value=v)
+            del v
+            if collect and i % 4 == 3:
+                gc.collect()
+                self.ctx.count("gc_collections")
+
+    def op_rollback(self, nd, name=None):
         ctx = self.ctx
-        name = self.pick_gene_name(nd, 0.05)
-        # prefer genes that have an approved mutation
-        if nd.log:
-            cands = [e[0] for e in nd.log if e[2]]
-            if cands and self.rng.random() < 0.7:
-                name = self.rng.choice(cands)
+        if name is None:
+            name = self.pick_gene_name(nd, 0.05)
+            # prefer genes that have an approved mutation
+            if nd.log:
+                cands = [e[0] for e in nd.log if e[2]]
+                if cands and self.rng.random() < 0.7:
+                    name = self.rng.choice(cands)
         before = self.snaps()
-        ret = nd.g.rollback_mutation(name)
+        ok, ret = self.invoke("rollback_mutation", (lambda: nd.g.rollback_mutation(name)) if self.rng.random() < 0.7 else (
+            lambda: nd.g.rollback_mutation(gene_name=name)))
         after = self.snaps()
         calls = self.drain()
         self.frame("rollback", nd, before, after, calls)
@@ -599,7 +1070,7 @@ class History:
         dlog = (a["log"][0] - b["log"][0], a["log"][1] - b["log"][1])
         if nd.log is None:
             ctx.count("rollback_with_unknown_log")
-            nd.vals = dict(a["values"])
+            self.sync(nd, a)
             self.record("rollback", nd, "unknown-log", gene=name)
             return
         target = None
@@ -607,28 +1078,41 @@ class History:
             if e[0] == name and e[2]:
                 target = e
                 break
+        if not ok and self.aliased:
+            # the model's rollback target may be an object the workload edited in place: nothing to judge beyond frame()
+            ctx.count("recorded_not_judged:alias-rollback-raised")
+            self.stop = True
+            return
+        if not ok:
+            want = target[1] if target is not None else None
+            authorised = target is not None and (nd.allow or self.approved_by(nd, calls, name, want))
+            self.after_raise("rollback", nd, name, before, after, calls, ret, authorised,
+                             target is not None and name in nd.vals)
+            return
         if target is None or name not in nd.vals:
             if ret or snap_config(a) != snap_config(b):
                 ctx.violation("rollback-without-approved-mutation",
                               "rollback returned %r / changed the genome although the gene has no approved mutation" % (ret,),
                               self.witness(member=nd.idx, gene=name))
-                nd.vals = dict(a["values"])
+                self.sync(nd, a)
             self.record("rollback", nd, "nothing", gene=name)
             return
         want = target[1]
-        authorised = nd.allow or any(c[0] == name and c[1] == want and c[3] for c in calls)
+        epochs = set(e[3] for e in nd.log if e[0] == name and e[2])
+        authorised = nd.allow or self.approved_by(nd, calls, name, want)
         stored = dict(a["values"])[name]
-        asked = [c for c in calls if c[0] == name]
+        asked = [c for c in calls if c[0] == name and c[4] is nd.cb]
         if not nd.allow and asked and all(c[1] != want for c in asked):
             mech = "alias-rollback-restores-edited-object" if self.aliased else "rollback-wrong-value"
             if self.aliased:
                 ctx.count("recorded_not_judged:" + mech)
                 self.stop = True
                 return
-            ctx.violation(mech, "rollback of %s asked approval for restoring %s; the value preceding the last approved "
-                                "mutation was %s" % (name, asked[0][1], want), self.witness(member=nd.idx, gene=name))
-            nd.log.append((name, nd.vals[name], dlog[1] > 0))
-            nd.vals = dict(a["values"])
+            ctx.violation(mech, "rollback of %r asked approval for restoring %s; the value preceding the last approved "
+                                "mutation was %s" % (name, asked[0][1], want),
+                          self.witness(member=nd.idx, gene=name, local_clock_stepped_back_between_mutations=len(epochs) > 1))
+            self.log_add(nd, name, nd.vals[name], dlog[1] > 0)
+            self.sync(nd, a)
             self.record("rollback", nd, "wrong-target", gene=name, to=want)
             return
         if authorised:
@@ -639,59 +1123,80 @@ class History:
                     ctx.count("recorded_not_judged:" + mech)
                     self.stop = True
                     return
-                ctx.violation(mech, "authorised rollback of %s stored %s (returned %r); the value preceding the last "
+                ctx.violation(mech, "authorised rollback of %r stored %s (returned %r); the value preceding the last "
                                     "approved mutation was %s" % (name, stored, ret, want),
-                              self.witness(member=nd.idx, gene=name))
+                              self.witness(member=nd.idx, gene=name,
+                                           local_clock_stepped_back_between_mutations=len(epochs) > 1))
             else:
                 ctx.count("rollback_authorised")
                 if want != nd.vals[name]:
                     ctx.count("rollback_authorised_changing_value")
+                if len(epochs) > 1:
+                    ctx.count("rollback_across_backward_clock_step")
             if dlog != (1, 1):
                 ctx.violation("approved-rollback-not-logged", "authorised rollback changed the log counters by %r" % (dlog,),
                               self.witness(member=nd.idx, gene=name))
-            nd.log.append((name, nd.vals[name], True))
+            self.log_add(nd, name, nd.vals[name], True)
             nd.vals[name] = stored
             self.record("rollback", nd, "restored", gene=name, to=want)
         else:
             self.flags.add("refused")
+            if nd.sealed_after_open:
+                ctx.count("attempts_after_sealing")
             if ret or dlog != (1, 0):
                 ctx.violation("refused-rollback-not-logged",
                               "refused rollback returned %r and changed the log counters by %r instead of (1, 0)" % (ret, dlog),
                               self.witness(member=nd.idx, gene=name, approvals_asked=calls))
             else:
                 ctx.count("rollback_refused")
-            nd.log.append((name, nd.vals[name], False))
-            nd.vals = dict(a["values"])
+            self.log_add(nd, name, nd.vals[name], False)
+            self.sync(nd, a)
             self.record("rollback", nd, "refused", gene=name, to=want)
 
     def _add(self, nd, name, kind):
         ctx = self.ctx
-        value = self.fresh_value()
-        gtype = self.rng.choice(TYPES)
-        level = self.rng.choice([0, 1, 2, 3, 4])
-        gene = self.make_gene(name, value, gtype, level, self.rng.random() < 0.3, nd.idx)
+        reuse = None
+        if self.genes_made and self.rng.random() < 0.12:
+            cand = [t for t in self.genes_made if (t[0].name in nd.vals) == (kind == "add_existing")]
+            if cand:
+                reuse = self.rng.choice(cand)     # the very same Gene object, possibly already stored in another member
+        if reuse is not None:
+            gene, gtype, level = reuse
+            name, value = gene.name, gene.value
+            ctx.count("gene_object_reused")
+        else:
+            value = self.fresh_value()
+            gtype = self.rng.choice(TYPES)
+            level = self.rng.choice([0, 1, 2, 3, 4])
+            gene = self.make_gene(name, value, gtype, level, self.rng.random() < 0.3, nd.idx)
         vc = canon(value)
         existed = name in nd.vals
         before = self.snaps()
-        ret = nd.g.add_gene(gene)
+        ok, ret = self.invoke("add_gene", (lambda: nd.g.add_gene(gene)) if self.rng.random() < 0.7 else (lambda: nd.g.add_gene(gene=gene)))
         after = self.snaps()
         calls = self.drain()
         self.frame(kind, nd, before, after, calls, new_gene=None if existed else name, meta_may_change=(name,))
         b, a = before[nd.idx], after[nd.idx]
+        if not ok:
+            ctx.count("add_raised")
+            ret = False
         if a["log"] != b["log"] and not nd.allow:
             ctx.count("readd_logged")
         if existed and not nd.allow:
             self.flags.add("refused")
+            if nd.sealed_after_open:
+                ctx.count("attempts_after_sealing")
             bb, aa = dict(b), dict(a)
             bb.pop("log"), aa.pop("log")      # a refused re-add may or may not be logged
             if ret or aa != bb:
                 ctx.violation("refused-readd-changes-genome",
-                              "re-adding %s with mutations disabled returned %r / changed %s" % (
+                              "re-adding %r with mutations disabled returned %r / changed %s" % (
                                   name, ret, [k for k in aa if aa[k] != bb[k]]),
                               self.witness(member=nd.idx, gene=name))
+                self.sync(nd, a)
             else:
                 ctx.count("refused_readd")
-            self.record(kind, nd, "refused", gene=name, value=vc)
+            self.record(kind, nd, "refused" if ok else "refused-raised", gene=name, value=vc)
             return
         stored = dict(a["values"]).get(name)
         if stored == vc:
@@ -699,7 +1204,7 @@ class History:
                 self.flags.add("authorised")
             nd.vals[name] = vc
             nd.types[name] = gtype
-            self.record(kind, nd, "added", gene=name, value=vc, type=gtype, level=level)
+            self.record(kind, nd, "added" if ok else "added-raised", gene=name, value=vc, type=gtype, level=level)
         else:
             if not existed:
                 ctx.count("new_gene_not_added")
@@ -714,24 +1219,30 @@ class History:
         self._add(nd, self.pick_gene_name(nd, 0.0), "add_existing")
 
     def op_add_new(self, nd):
-        self._add(nd, "n%d" % len(nd.vals), "add_new")
+        nm = "n%d" % len(nd.vals)
+        if self.rng.random() < 0.15:
+            nm = self.rng.choice(HOSTILE_NAMES)
+        self._add(nd, nm, "add_existing" if nm in nd.vals else "add_new")
 
     def _expr(self, nd, kind, name, level, call):
         ctx = self.ctx
         before = self.snaps()
-        ret = call()
+        ok, ret = self.invoke(kind if kind == "set_expression" else kind + "_gene", call)
         after = self.snaps()
         calls = self.drain()
         self.frame(kind, nd, before, after, calls)
         b, a = before[nd.idx], after[nd.idx]
-        if snap_config(a) != snap_config(b) or a["log"] != b["log"]:
-            pass  # frame() reported value/hash changes; log changes are not judged here
+        if not ok:
+            ctx.count("expression_op_raised")
+            nd.levels = dict(a["levels"])
+            self.record(kind, nd, "raised:" + type(ret).__name__, gene=name, level=level)
+            return
         if name in nd.vals:
             nd.levels[name] = level
         if bool(ret) != (name in nd.vals):
-            ctx.violation("expression-op-return", "%s(%s) returned %r" % (kind, name, ret), self.witness(member=nd.idx))
+            ctx.violation("expression-op-return", "%s(%r) returned %r" % (kind, name, ret), self.witness(member=nd.idx))
         if dict(a["levels"]) != nd.levels:
-            ctx.violation("expression-op-level", "after %s(%s) the levels are %r, expected %r" % (
+            ctx.violation("expression-op-level", "after %s(%r) the levels are %r, expected %r" % (
                 kind, name, dict(a["levels"]), nd.levels), self.witness(member=nd.idx))
             nd.levels = dict(a["levels"])
         ctx.count("expression_ops_checked")
@@ -740,16 +1251,24 @@ class History:
     def op_set_expression(self, nd):
         name = self.pick_gene_name(nd)
         level = self.rng.randrange(5)
+        lv = self.ExpressionLevel(level)
+        f = self.rng.randrange(3)
         self._expr(nd, "set_expression", name, level,
-                   lambda: nd.g.set_expression(name, self.ExpressionLevel(level), "m"))
+                   (lambda: nd.g.set_expression(name, lv, "m")) if f == 0 else
+                   (lambda: nd.g.set_expression(name, lv)) if f == 1 else
+                   (lambda: nd.g.set_expression(gene_name=name, level=lv, modifier="%s{}\udc80")))
 
     def op_silence(self, nd):
         name = self.pick_gene_name(nd)
-        self._expr(nd, "silence", name, 0, lambda: nd.g.silence_gene(name, "why"))
+        f = self.rng.randrange(3)
+        self._expr(nd, "silence", name, 0, (lambda: nd.g.silence_gene(name, "why")) if f == 0 else
+                   (lambda: nd.g.silence_gene(name)) if f == 1 else (lambda: nd.g.silence_gene(gene_name=name, reason="")))
 
     def op_activate(self, nd):
         name = self.pick_gene_name(nd)
-        self._expr(nd, "activate", name, 2, lambda: nd.g.activate_gene(name))
+        f = self.rng.randrange(2)
+        self._expr(nd, "activate", name, 2, (lambda: nd.g.activate_gene(name)) if f == 0 else
+                   (lambda: nd.g.activate_gene(gene_name=name, reason="r")))
 
     def op_express(self, nd):
         ctx = self.ctx
@@ -767,13 +1286,19 @@ class History:
             if self.rng.random() < 0.3:
                 context["unrelated"] = 1
         before = self.snaps()
-        cfg = nd.g.express(context) if (context is not None or self.rng.random() < 0.5) else nd.g.express()
+        f = self.rng.randrange(3)
+        ok, cfg = self.invoke("express", (lambda: nd.g.express(context)) if (context is not None and f < 2) else
+                              (lambda: nd.g.express(context=context)) if f == 2 else (lambda: nd.g.express()))
         after = self.snaps()
         calls = self.drain()
         self.frame("express", nd, before, after, calls)
         if after[nd.idx] != before[nd.idx] and snap_config(after[nd.idx]) == snap_config(before[nd.idx]):
             ctx.violation("express-changes-state", "express changed %s" % [
                 k for k in after[nd.idx] if after[nd.idx][k] != before[nd.idx][k]], self.witness(member=nd.idx))
+        if not ok:
+            ctx.count("express_raised")
+            self.record("express", nd, "raised:" + type(cfg).__name__)
+            return
         inctx = set(context or {})
         want = {}
         for nm in names:
@@ -822,22 +1347,33 @@ class History:
             muts = {}
         inherit = self.rng.random() < 0.7
         _global_random.seed(self.rng.getrandbits(32))
+        arg = muts
+        if muts is not None and self.rng.random() < 0.2:
+            import collections
+            import types
+            arg = self.rng.choice([collections.OrderedDict(muts), types.MappingProxyType(muts)])
         before = self.snaps()
         if muts is None and inherit and self.rng.random() < 0.5:
-            child = nd.g.replicate()
+            ok, child = self.invoke("replicate", lambda: nd.g.replicate())
         else:
-            child = nd.g.replicate(muts, inherit) if self.rng.random() < 0.5 else nd.g.replicate(
-                mutations=muts, inherit_expression=inherit)
+            ok, child = self.invoke("replicate", (lambda: nd.g.replicate(arg, inherit)) if self.rng.random() < 0.5 else (
+                lambda: nd.g.replicate(mutations=arg, inherit_expression=inherit)))
         after = self.snaps()
         calls = self.drain()
         self.frame("replicate", nd, before, after, calls)
+        mc = {k: canon(v) for k, v in (muts or {}).items()}
+        if not ok:
+            ctx.count("replicate_raised")
+            if any(c[5] for c in calls):
+                ctx.count("callback_raised_ops")
+            self.record("replicate", nd, "raised:" + type(child).__name__, mutations=mc)
+            return
         ctx.count("replications")
         self.flags.add("replicated")
         cs = snap(ctx, child)
         pv = dict(after[nd.idx]["values"])
         cv = dict(cs["values"])
-        mc = {k: canon(v) for k, v in (muts or {}).items()}
-        rate = self.cfg["rate"]
+        rate0 = rate_is_zero(nd.rate)
         if set(cv) != set(pv):
             ctx.violation("child-gene-set", "child genes %r, parent genes %r" % (sorted(cv), sorted(pv)),
                           self.witness(member=nd.idx))
@@ -846,16 +1382,18 @@ class History:
             if nm not in cv:
                 continue
             ctx.count("child_gene_compared")
+            if has_identity(pv[nm]):
+                ctx.count("identity_value_child_compared")
             if cv[nm] != pv[nm]:
                 differing.append(nm)
-                ok = nd.allow or any(c[0] == nm and c[1] == cv[nm] and c[3] for c in calls)
-                if not ok:
+                okc = nd.allow or self.approved_by(nd, calls, nm, cv[nm])
+                if not okc:
                     ctx.violation("child-differs-unauthorised",
-                                  "child value of %s is %s, parent has %s; mutations disabled and that change was not approved"
+                                  "child value of %r is %s, parent has %s; mutations disabled and that change was not approved"
                                   % (nm, cv[nm], pv[nm]), self.witness(member=nd.idx, gene=nm, approvals_asked=calls,
                                                                        mutations=mc))
-                elif nd.allow and rate == 0 and cv[nm] != mc.get(nm):
-                    ctx.violation("child-differs-unrequested", "child value of %s is %s; requested mutations %r, rate 0" % (
+                elif nd.allow and rate0 and cv[nm] != mc.get(nm):
+                    ctx.violation("child-differs-unrequested", "child value of %r is %s; requested mutations %r, rate 0" % (
                         nm, cv[nm], mc), self.witness(member=nd.idx, gene=nm))
                 else:
                     ctx.count("child_gene_authorised_difference")
@@ -866,16 +1404,18 @@ class History:
             ctx.violation("child-gene-metadata", "child gene types/flags differ from the parent's",
                           self.witness(member=nd.idx, parent=pm, child=cm))
         # refused attempts on the child are logged on the child
-        n_explicit = sum(1 for k in (muts or {}) if k in pv)
+        explicit = [k for k in (muts or {}) if k in pv]
+        n_explicit = len(explicit)
         total, approved = cs["log"]
         unapproved = total - approved
+        mine = [c for c in calls if c[4] is nd.cb]
         if nd.allow:
             if unapproved:
                 ctx.violation("child-log-unapproved-under-allow", "child logs %d unapproved mutations although mutations are enabled"
                               % unapproved, self.witness(member=nd.idx))
-        elif nd.has_cb:
-            refused_calls = sum(1 for c in calls if not c[3])
-            ok_calls = sum(1 for c in calls if c[3])
+        elif mine:
+            refused_calls = sum(1 for c in mine if not c[3])
+            ok_calls = sum(1 for c in mine if c[3])
             if refused_calls:
                 self.flags.add("refused")
             if unapproved != refused_calls or approved != ok_calls:
@@ -885,36 +1425,204 @@ class History:
                               self.witness(member=nd.idx, approvals_asked=calls))
             else:
                 ctx.count("child_log_checked")
-            if rate == 0 and len(calls) != n_explicit:
+            if rate0 and len(mine) != n_explicit:
                 ctx.count("replicate_callback_consultations_differ_from_requests")   # observed, not judged
         else:
             if n_explicit:
                 self.flags.add("refused")
-            if approved or unapproved < n_explicit or (rate == 0 and unapproved != n_explicit):
+                if nd.sealed_after_open:
+                    ctx.count("attempts_after_sealing")
+            if approved or unapproved < n_explicit or (rate0 and unapproved != n_explicit):
                 ctx.violation("child-refused-not-logged",
                               "%d explicit mutations had to be refused; child logs %d unapproved / %d approved" % (
                                   n_explicit, unapproved, approved), self.witness(member=nd.idx, mutations=mc))
             else:
                 ctx.count("child_log_checked")
-        # model of the child
+        # model of the child: it inherits the parent's current settings
         c_allow = getattr(child, "allow_mutations", nd.allow)
-        if bool(c_allow) != bool(nd.allow) or (getattr(child, "on_mutation", self.stub) is not None) != nd.has_cb:
+        if bool(c_allow) != bool(nd.allow) or (getattr(child, "on_mutation", nd.cb) is not None) != (nd.cb is not None):
             ctx.violation("child-authorisation-settings", "child has allow_mutations=%r / callback %r, parent %r / %r" % (
-                c_allow, getattr(child, "on_mutation", None) is not None, nd.allow, nd.has_cb), self.witness(member=nd.idx))
-        cn = Node(len(self.nodes), child, nd.idx, nd.allow, nd.has_cb)
-        cn.vals = dict(cv)
-        cn.types = {t[0]: t[2] for t in cs["genes"]}
-        cn.levels = dict(cs["levels"])
+                c_allow, getattr(child, "on_mutation", None) is not None, nd.allow, nd.cb is not None),
+                self.witness(member=nd.idx))
+        cn = Node(len(self.nodes), child, nd.idx, nd.allow, nd.cb, nd.rate, nd.silent, self.new_group())
+        cn.sealed_after_open, cn.cb_changed = nd.sealed_after_open, nd.cb_changed
+        self.sync(cn, cs)
         if inherit and cn.levels != dict(after[nd.idx]["levels"]):
             ctx.count("child_levels_differ_from_parent_with_inherit")
-        lg = self.real_log(child)
-        if lg is None:
-            cn.log = None if total else []
+        if total == n_explicit:
+            # the child's log = one record per explicit mutation of an existing gene, in the order of the mapping
+            cn.log = [(k, pv[k], bool(nd.allow or self.approved_by(nd, calls, k, mc[k])), self.back_epoch) for k in explicit]
         else:
-            cn.log = [(m.gene_name, canon(m.original_value), bool(m.approved)) for m in lg]
+            cn.log = None if total else []
         self.nodes.append(cn)
-        self.record("replicate", nd, "child#%d:%s" % (cn.idx, ",".join(sorted(differing))), mutations=mc,
+        self.record("replicate", nd, "child#%d:%s" % (cn.idx, ",".join(sorted(map(str, differing)))), mutations=mc,
                     inherit_expression=inherit, child_log=[total, approved])
+
+    def new_group(self):
+        return 1 + max(n.group for n in self.nodes)
+
+    # -------------------------------------------------------------- settings assigned after construction
+    def op_reconfigure(self, nd, what=None):
+        ctx = self.ctx
+        rng = self.rng
+        what = what or rng.choice(["allow", "allow", "allow", "cb", "cb", "cb", "rate", "silent"])
+        before = self.snaps()
+        desc = None
+        if what == "allow":
+            v = rng.choice([True, False, False, False, 0, 1, None, "", "yes", [], [0], 0.0, 2])
+            if nd.allow and not v:
+                nd.sealed_after_open = True
+            nd.g.allow_mutations = v
+            nd.allow = bool(v)
+            desc = repr(v)
+        elif what == "seal":
+            if nd.allow:
+                nd.sealed_after_open = True
+            if nd.cb is not None:
+                nd.cb_changed = True
+            nd.g.allow_mutations = False
+            nd.g.on_mutation = None
+            nd.allow, nd.cb = False, None
+            desc = "allow_mutations=False, on_mutation=None"
+        elif what == "open":
+            nd.g.allow_mutations = True
+            nd.allow = True
+            desc = "allow_mutations=True"
+        elif what == "cb":
+            r = rng.random()
+            if r < 0.35:
+                s = None
+            elif r < 0.45 and len(self.stubs) > 1:
+                s = rng.choice(self.stubs)           # a callback that another member uses / used
+            else:
+                s = self.new_stub()
+            if s is not nd.cb:
+                nd.cb_changed = True
+            nd.g.on_mutation = s
+            nd.cb = s
+            desc = repr(s)
+        elif what == "rate":
+            v = rng.choice([0, 0.0, 1.0, 0.5, True, False, Fraction(1, 2), Decimal("0.5"), 1e-9, 5, -1])
+            nd.g.mutation_rate = v
+            nd.rate = v
+            desc = repr(v)
+        else:
+            v = rng.choice([True, False, False, 0, 1, None, ""])
+            nd.g.silent = v
+            nd.silent = v
+            desc = repr(v)
+        after = self.snaps()
+        self.drain()
+        ctx.count("setting_assignments")
+        ctx.count("setting:" + what)
+        self.flags.add("reconfigured")
+        self.frame("reconfigure", nd, before, after, [])
+        if after[nd.idx] != before[nd.idx]:
+            ctx.violation("setting-assignment-changes-genome", "assigning %s changed %s" % (
+                what, [k for k in after[nd.idx] if after[nd.idx][k] != before[nd.idx][k]]), self.witness(member=nd.idx))
+            self.sync(nd, after[nd.idx])
+        self.record("assign:" + what, nd, "ok", value=desc)
+
+    def op_seal(self, nd, name=None):
+        self.op_reconfigure(nd, "seal")
+
+    def op_open(self, nd, name=None):
+        self.op_reconfigure(nd, "open")
+
+    # -------------------------------------------------------------- object protocols
+    def op_duplicate(self, nd, name=None):
+        ctx = self.ctx
+        how = self.rng.choice(["deepcopy", "deepcopy", "pickle", "pickle", "copy"])
+        before = self.snaps()
+        if how == "deepcopy":
+            ok, dup = self.invoke("<deepcopy>", lambda: copy.deepcopy(nd.g))
+        elif how == "pickle":
+            proto = self.rng.choice([2, pickle.HIGHEST_PROTOCOL])
+            ok, dup = self.invoke("<pickle>", lambda: pickle.loads(pickle.dumps(nd.g, proto)))
+        else:
+            ok, dup = self.invoke("<copy>", lambda: copy.copy(nd.g))
+        after = self.snaps()
+        self.drain()
+        self.frame("duplicate", nd, before, after, [])
+        if after[nd.idx] != before[nd.idx]:
+            ctx.violation("duplicate-alters-original", "%s of genome #%d changed %s of it" % (
+                how, nd.idx, [k for k in after[nd.idx] if after[nd.idx][k] != before[nd.idx][k]]), self.witness(member=nd.idx))
+        if not ok:
+            ctx.count("duplicate_raised")            # e.g. a lock stored as a value
+            self.record("duplicate:" + how, nd, "raised:" + type(dup).__name__)
+            return
+        ctx.count("duplicates")
+        ctx.count("duplicate:" + how)
+        ok2, ds = self.invoke("<snapshot>", lambda: snap(ctx, dup))
+        if not ok2:
+            ctx.count("duplicate_unusable")
+            self.record("duplicate:" + how, nd, "unusable:" + type(ds).__name__)
+            return
+        group = nd.group if how == "copy" else self.new_group()
+        dn = Node(len(self.nodes), dup, nd.idx, nd.allow, nd.cb, nd.rate, nd.silent, group)
+        dn.sealed_after_open, dn.cb_changed, dn.duplicate = nd.sealed_after_open, nd.cb_changed, True
+        self.sync(dn, ds)
+        ident = any(has_identity(v) for v in nd.vals.values()) or any(has_identity(str(e[1])) for e in (nd.log or []))
+        if not ident and dict(ds["values"]) != nd.vals:
+            ctx.count("recorded_not_judged:duplicate-differs")
+        if nd.log is None or (ident and how != "copy"):
+            dn.log = None
+        else:
+            dn.log = list(nd.log)
+        self.nodes.append(dn)
+        self.record("duplicate:" + how, nd, "member#%d" % dn.idx)
+
+    # -------------------------------------------------------------- read-only / reporting calls
+    def op_reads(self, nd, name=None):
+        ctx = self.ctx
+        rng = self.rng
+        before = self.snaps()
+        done = []
+        for _ in range(rng.randint(1, 4)):
+            k = rng.choice(["validate", "list_genes", "get_statistics", "export", "repr", "diff", "gene_hash", "get_value",
+                            "get_hash", "get_gene"])
+            done.append(k)
+            other = rng.choice(self.nodes)
+            nm = self.pick_gene_name(nd)
+            if k == "diff":
+                for x, y in ((nd, other), (other, nd)):
+                    ok, d = self.invoke("diff", lambda: x.g.diff(y.g))
+                    if ok and isinstance(d, dict):
+                        ctx.count("diff_checked")
+                        vx, vy = dict(before[x.idx]["values"]), dict(before[y.idx]["values"])
+                        for gname in d:
+                            cx, cy = vx.get(gname), vy.get(gname)
+                            if cx == cy and cx is not None and "nan" not in cx.lower():
+                                ctx.violation("diff-reports-equal-gene", "diff() lists %r although both members store %s" % (
+                                    gname, cx), self.witness(member=x.idx, other=y.idx))
+            elif k == "gene_hash":
+                g = nd.g.get_gene(nm)
+                if g is not None:
+                    self.invoke("Gene.get_hash", lambda: g.get_hash())
+            elif k == "repr":
+                self.invoke("<repr>", lambda: (repr(nd.g), str(nd.g)))
+            elif k == "get_value":
+                self.invoke("get_value", (lambda: nd.g.get_value(nm)) if rng.random() < 0.5 else (lambda: nd.g.get_value(name=nm, default=[])))
+            elif k == "get_gene":
+                self.invoke("get_gene", lambda: nd.g.get_gene(name=nm))
+            elif k == "validate":
+                ok, v = self.invoke("validate", lambda: nd.g.validate())
+                if ok:
+                    silenced_required = [t[0] for t in before[nd.idx]["genes"] if t[3] and nd.levels.get(t[0]) == SILENCED]
+                    if bool(v[0]) != (not silenced_required):
+                        ctx.count("validate_differs_from_model")     # observed, not part of the statement
+            else:
+                self.invoke(k, lambda: getattr(nd.g, k)())
+        after = self.snaps()
+        self.drain()
+        ctx.count("read_only_ops")
+        for other in self.nodes:
+            if after[other.idx] != before[other.idx]:
+                ctx.violation("read-only-call-changes-genome", "%r on genome #%d changed %s of genome #%d" % (
+                    done, nd.idx, [k for k in after[other.idx] if after[other.idx][k] != before[other.idx][k]], other.idx),
+                    self.witness(member=nd.idx))
+                self.sync(other, after[other.idx])
+        self.record("reads", nd, "ok", calls=done)
 
     # -------------------------------------------------------------- aliasing probe
     def op_alias(self, nd):
@@ -943,6 +1651,7 @@ class History:
                 elif route == "export":
                     obj = next((d["value"] for d in nd.g.export()["genes"] if d["name"] == nm), None)
                 elif route == "list_genes":
+                    self.api("list_genes")
                     obj = next((d["value"] for d in nd.g.list_genes() if d["name"] == nm), None)
                 else:
                     obj = nd.g.get_gene(nm).value
@@ -974,20 +1683,57 @@ class History:
                 mech = "alias-gene-object-value"
             else:
                 mech = "alias-returned-reference"
-            what = [k for k in a if a[k] != b[k]]
             # Recorded, not judged: editing a value object in place is not one of the configuration operations the
             # statement quantifies over (lead's triage, DESIGN.md C20); the evidence shows how often it was observed.
             ctx.count("recorded_not_judged:" + mech)
             ctx.notes.append("observed (not judged) %s via %s" % (mech, route)) if len(ctx.notes) < 3 else None
-            continue
-            ctx.violation(mech, "editing in place a value object (%s, genome #%d) changed %s of genome #%d: no operation, "
-                                "no approval, nothing logged" % (route, src, what, other.idx),
-                          self.witness(route=route, obtained_from=src, changed_member=other.idx, changed=what,
-                                       hash_before=b["hash"], hash_after=a["hash"]))
         self.record("alias", nd, "hit" if hit else "no-effect", route=route, source=src, changed=hit)
         if hit:
             ctx.count("alias_probe_effective")
             self.stop = True   # the model no longer describes the stored objects
+
+
+# ------------------------------------------------------------------ -O probe (class I: guards written as assert)
+PROBE_CASES = list(range(0, len(SWEEP), 7)) + list(range(len(SWEEP) + MARATHONS, len(SWEEP) + MARATHONS + 150))
+
+
+def probe_main():
+    """Runs inside a child interpreter started with -O: a small slice of the same workload, result as JSON on stdout."""
+    seed = int(sys.argv[1]) if len(sys.argv) > 1 else 0
+    ctx = core.Ctx(PID, "quick", seed)
+    for n in PROBE_CASES:
+        ctx.case = n
+        ctx.evaluations += 1
+        run_case(ctx, n)
+    d = ctx.dump()
+    d["debug"] = __debug__
+    sys.__stdout__.write("\nPROBE-RESULT " + json.dumps(d) + "\n")
+
+
+def extra_parent(pctx):
+    code = "import sys; from checks import c20_genome as m; m.probe_main()"
+    try:
+        r = subprocess.run([sys.executable, "-O", "-B", "-c", code, str(pctx.seed)], capture_output=True, text=True,
+                           timeout=420, cwd=core.VERIF)
+    except subprocess.TimeoutExpired:
+        pctx.inconclusive("the -O child probe did not finish within 420 s")
+        return
+    line = [l for l in r.stdout.splitlines() if l.startswith("PROBE-RESULT ")]
+    if r.returncode != 0 or not line:
+        pctx.inconclusive("the -O child probe failed (rc=%s): %s" % (r.returncode, (r.stderr or r.stdout)[-400:]))
+        return
+    d = json.loads(line[-1][len("PROBE-RESULT "):])
+    if d.get("debug"):
+        pctx.inconclusive("the -O child probe ran with __debug__ true")
+        return
+    pctx.count("optimized_probe_cases", d["evaluations"])
+    pctx.count("optimized_probe_ops", d["counters"].get("ops", 0))
+    pctx.count("optimized_probe_refusals_judged", d["counters"].get("refused_mutate_logged", 0) + d["counters"].get(
+        "refused_readd", 0) + d["counters"].get("rollback_refused", 0))
+    for v in d["violations"]:
+        pctx.case = "python -O probe, case %r" % (v.get("case"),)
+        pctx.violation(v["mechanism"], "under python -O: " + v["what"], v.get("witness"))
+    pctx.case = None
 
 
 if __name__ == "__main__":
